@@ -40,7 +40,7 @@ def run(ctx):
             if s["did_not_panic"]:
                 ctx.inconclusive.append(f"crashbox scenario {s['id']} did not reach its fault (harness bug)")
                 continue
-            if topo == "caught-then-continue":
+            if topo in ("caught-then-continue", "thread-caught-then-continue"):
                 if s["signal"] is not None:
                     why = f"child died by signal {s['signal']}"
                 elif s.get("continue_failed") or not s.get("continue_ok"):
@@ -65,7 +65,7 @@ def run(ctx):
                     "replay_cmd": f"{exe} child {s['id']}"})
     points = sorted({s["id"].split("/")[0] for s in rows})
     topos = sorted({s["id"].split("/")[1] for s in rows})
-    ctx.require(len(points) >= 19 and len(topos) >= 13, "crash point x topology table incomplete")
+    ctx.require(len(points) >= 19 and len(topos) >= 15, "crash point x topology table incomplete")
 
     # after a *caught* user panic the mock stays usable and verification reflects the matched calls (engine A)
     cases = 300_000 if ctx.tier == "quick" else 8_000_000
@@ -82,7 +82,7 @@ def run(ctx):
         "evaluations": total + sum(w["cases"] for w in workers),
         "distinct_nontrivial": len(rows) + summary["distinct_nontrivial"],
         "rule": "fault enumeration: crash point (3 body positions, matcher, answer, real fn, default body, argument "
-                "Debug, return Clone, 10 mock-induced kinds) x topology (13: caught and continued in-process (the same call must then work and verification must judge the counts), original only, clone dropped "
+                "Debug, return Clone, 10 mock-induced kinds) x topology (15: caught and continued in-process, or fatal to a worker thread owning a clone and continued on the original (the same call must then work and verification must judge the counts), an explicit verify() from a fixture's destructor, original only, clone dropped "
                 "first/outliving, clone parked on another thread, Rc, Arc, Arc whose last owner is a worker, Box, "
                 "Box<dyn Trait>, by-value provided method, original on a foreign thread, clone thread panics) x "
                 "met/unmet expectations x 0/2 extra live clones, each in its own child process (all combinations "
